@@ -888,4 +888,198 @@ theorem report_model_holds (inp : Input) (ht : TableOK inp.t) (hrow : inp.rowOK)
     exact hab
 
 
+
+/-! ### metadata frames -/
+
+theorem lookupBy_zip_mem {β : Type} : ∀ (ids : List Id) (xs : List β) (a : Id) (b : β), ids.Nodup →
+    (a, b) ∈ ids.zip xs → lookupBy ids xs a = some b
+  | [], _, _, _, _, h => by simp at h
+  | _ :: _, [], _, _, _, h => by simp at h
+  | i :: is, x :: xs, a, b, hnd, h => by
+    simp only [List.nodup_cons] at hnd
+    simp only [List.zip_cons_cons, List.mem_cons, Prod.mk.injEq] at h
+    simp only [lookupBy]
+    rcases h with ⟨rfl, rfl⟩ | h
+    · simp
+    · have : i ≠ a := fun e => hnd.1 (e ▸ (List.of_mem_zip h).1)
+      simp only [this, if_false]
+      exact lookupBy_zip_mem is xs a b hnd.2 h
+
+theorem entryRow_length (m : MdE) : (entryRow m).length = (entryColumns m).length := by
+  induction m with
+  | nil => rfl
+  | cons kv m ih =>
+    simp only [entryRow, entryColumns, List.flatMap_cons, List.length_append] at ih ⊢
+    rw [ih]
+    congr 1
+    cases kv.2 <;> simp
+
+theorem mcols_homog (cols : List String) : ∀ (es : List MdE), (∀ m ∈ es, entryColumns m = cols) → es ≠ [] →
+    es.foldl (fun acc m => let c := entryColumns m; if c.length > acc.length then c else acc) [] = cols := by
+  have stay : ∀ (es : List MdE), (∀ m ∈ es, entryColumns m = cols) →
+      es.foldl (fun acc m => let c := entryColumns m; if c.length > acc.length then c else acc) cols = cols := by
+    intro es
+    induction es with
+    | nil => intro _; rfl
+    | cons m es ih =>
+      intro h
+      simp only [List.foldl_cons, h m (by simp), Nat.lt_irrefl, if_false, gt_iff_lt]
+      exact ih (fun m' hm' => h m' (by simp [hm']))
+  intro es h hne
+  cases es with
+  | nil => exact absurd rfl hne
+  | cons m es =>
+    simp only [List.foldl_cons, h m (by simp), List.length_nil, gt_iff_lt]
+    by_cases hc : 0 < cols.length
+    · simp only [hc, if_true]; exact stay es (fun m' hm' => h m' (by simp [hm']))
+    · have : cols = [] := List.length_eq_zero_iff.mp (by omega)
+      subst this
+      simp only [List.length_nil, Nat.lt_irrefl, if_false]
+      exact stay es (fun m' hm' => h m' (by simp [hm']))
+
+/-- `metadata_to_dataframe`: refuses an axis without metadata; otherwise (entries with the same
+categories in the same order, distinct column names) the frame is indexed by the IDs in order and,
+for every ID, shows every value of that ID's entry under its column, and nothing else -/
+theorem mdframe_model_holds (ids : List Id) (es : List MdE) (cols : List String)
+    (hlen : es.length = ids.length) (hids : ids.Nodup) (hcols : cols.Nodup)
+    (hhom : ∀ m ∈ es, entryColumns m = cols) :
+    holdsMdFrame ids none (mdFrameM ids none) = true ∧
+    holdsMdFrame ids (some es) (mdFrameM ids (some es)) = true := by
+  refine ⟨by simp only [holdsMdFrame, mdFrameM]; decide, ?_⟩
+  simp only [holdsMdFrame, mdFrameM, beq_self_eq_true, List.length_map, hlen, Bool.true_and, List.all_eq_true]
+  intro ⟨id, m⟩ hm
+  have hmes : m ∈ es := (List.of_mem_zip hm).2
+  have hne : es ≠ [] := List.ne_nil_of_mem hmes
+  have hl := lookupBy_zip_mem ids es id m hids hm
+  simp only [lookupBy_map, hl, Option.map_some, mcols_homog cols es hhom hne, Bool.and_eq_true, beq_iff_eq,
+    List.all_eq_true]
+  refine ⟨⟨?_, ?_⟩, ?_⟩
+  · rw [entryRow_length, hhom m hmes]
+  · intro ⟨c, v⟩ hcv
+    rw [hhom m hmes] at hcv
+    exact lookupBy_zip_mem cols (entryRow m) c v hcols hcv
+  · intro c hc
+    rw [hhom m hmes]
+    simpa using hc
+
+
+/-- the figures of the report, for every mode: axis sizes, truncated total, density, and the
+statistics of the per-ID counts `rCounts` of the summarised axis; the detail lines are those
+(ID, count) pairs, rearranged in ascending order of count -/
+theorem report_fields (inp : Input) (ht : TableOK inp.t) (hrow : inp.rowOK) (hcol : inp.colOK) (q o : Bool) :
+    (reportM inp q o).numSamples = inp.t.samp.length ∧
+    (reportM inp q o).numObservations = inp.t.obs.length ∧
+    (reportM inp q o).total = (if q then none else some (truncZ (total inp.t.rows))) ∧
+    (reportM inp q o).density = (if q then none else some (specDensity inp.t)) ∧
+    (rCounts inp.t q o ≠ [] →
+      some (reportM inp q o).min = minL? (rCounts inp.t q o) ∧ some (reportM inp q o).max = maxL? (rCounts inp.t q o) ∧
+      (reportM inp q o).median = median (rCounts inp.t q o) ∧ (reportM inp q o).mean = mean (rCounts inp.t q o) ∧
+      (reportM inp q o).variance = some (variance (rCounts inp.t q o))) ∧
+    (reportM inp q o).detail.Perm ((inp.t.ids (rAxis o)).zip (rCounts inp.t q o)) ∧
+    (reportM inp q o).detail.Pairwise (fun a b => a.2 ≤ b.2) := by
+  have hst := stR_eq inp ht q o
+  have hden := rInput_density inp ht hrow hcol o
+  have hinp : (if o = true then inp.transpose else inp) = rInput inp o := rfl
+  have hcounts : (statsM (rInput inp o).t q).counts = (inp.t.ids (rAxis o)).zip (rCounts inp.t q o) := by
+    rw [hst]; cases rCounts inp.t q o <;> rfl
+  have hcv : List.map (fun x => x.snd) ((inp.t.ids (rAxis o)).zip (rCounts inp.t q o)) = rCounts inp.t q o :=
+    List.map_snd_zip (by rw [rCounts_length]; exact Nat.le_refl _)
+  simp only [reportM, hinp, hcounts, hcv, sortKV_eq, hden]
+  refine ⟨?_, ?_, ?_, trivial, ?_, sortBy_perm _ _, sortBy_sorted _ _⟩
+  · cases o <;> simp [rInput, Input.transpose, Table.transpose]
+  · cases o <;> simp [rInput, Input.transpose, Table.transpose]
+  · cases q
+    · simp [rCounts_sum inp.t ht o]
+    · rfl
+  · intro hne
+    rw [hst]
+    cases hC : rCounts inp.t q o with
+    | nil => exact absurd hC hne
+    | cons x xs => simp [minL?, maxL?]
+
+/-- default mode: the counts are the per-sample sums -/
+theorem rCounts_default (t : Table Rat) :
+    rCounts t false false = t.samp.map (fun id => ((vecOf? t .samp id).map List.sum).getD 0) := by
+  have hc : countOf false = List.sum := by funext v; simp [countOf]
+  simp [rCounts, rAxis, hc, Table.ids]
+
+/-- `--qualitative`: the counts are the numbers of non-zero entries per sample -/
+theorem rCounts_qualitative (t : Table Rat) :
+    rCounts t true false = t.samp.map (fun id => ((vecOf? t .samp id).map (fun v => (cntNZ v : Rat))).getD 0) := by
+  have hc : countOf true = fun v => (cntNZ v : Rat) := by funext v; simp [countOf]
+  simp [rCounts, rAxis, hc, Table.ids]
+
+/-- `--observations`: the counts are the per-observation sums (the code transposes the table) -/
+theorem rCounts_observations (t : Table Rat) :
+    rCounts t false true = t.obs.map (fun id => ((t.row? id).map List.sum).getD 0) := by
+  have hc : countOf false = List.sum := by funext v; simp [countOf]
+  simp [rCounts, rAxis, hc, Table.ids, vecOf?]
+
+/-- everything at once: for every table of the domain in every well-formed layout without stored
+zeros, each predicate of the property is true of what the model of the code produces -/
+theorem model_holds (inp : Input) (ht : TableOK inp.t) (hrow : inp.rowOK) (hcol : inp.colOK) :
+    (∀ f q, holdsQ inp.t f q (answerF inp f q) = true) ∧
+    (∀ b, holdsStats inp.t b (statsM inp.t b) = true) ∧
+    (∀ q o std, printsAsStd (reportM inp q o).variance std = true →
+      holdsReport inp.t q o ((reportM inp q o).printed std) = true) ∧
+    (∀ o, holdsIds inp.t o (idsM inp.t o) = true) ∧
+    (∀ n m, holdsHead inp.t n m (headM inp.t n m) = true) ∧
+    holdsFrame inp.t (frameDenseM inp.t) = true :=
+  ⟨fun f q => queries_model_holds inp f q ht hrow hcol,
+   fun b => stats_model_holds inp.t ht b,
+   fun q o std h => report_model_holds inp ht hrow hcol q o std h,
+   fun o => ids_model_holds inp.t o,
+   fun n m => head_model_holds inp.t n m,
+   frame_dense_holds inp.t⟩
+
+
+/-! ### the decidable layout check of the driver implies the hypotheses of the theorems -/
+
+theorem wf_of_wfb (cs : CS Rat) (h : cs.wfb = true) : cs.WF := by
+  simp only [CS.wfb, Bool.and_eq_true, beq_iff_eq, List.all_eq_true, decide_eq_true_eq, List.mem_range] at h
+  obtain ⟨⟨⟨⟨⟨⟨h1, h2⟩, h3⟩, h4⟩, h5⟩, h6⟩, h7⟩ := h
+  exact ⟨h1, h2, h3, h4, h5, h6, h7⟩
+
+theorem viewOK_of_b (cs : CS Rat) (n m : Nat) (g : Grid) (h : viewOKb cs n m g = true) : ViewOK cs n m g := by
+  simp only [viewOKb, Bool.and_eq_true, beq_iff_eq] at h
+  obtain ⟨⟨⟨⟨h1, h2⟩, h3⟩, h4⟩, h5⟩ := h
+  refine ⟨wf_of_wfb cs h1, h2, h3, h4, ?_⟩
+  intro v hv
+  simp only [nszb, List.all_eq_true, bne_iff_ne, ne_eq] at h5
+  exact h5 v hv
+
+theorem okb_sound (inp : Input) (h : inp.okb = true) : inp.rowOK ∧ inp.colOK := by
+  simp only [Input.okb, Bool.and_eq_true] at h
+  exact ⟨viewOK_of_b _ _ _ _ h.1, viewOK_of_b _ _ _ _ h.2⟩
+
+/-! ### non-vacuity: a concrete asymmetric table in an unsorted layout meets every hypothesis -/
+
+def exInput : Input :=
+  { t := { obs := ["o1", "o2"], samp := ["s1", "s2", "s3"], rows := [[0, 5, 2], [3, 0, -1]] },
+    csr := { nMajor := 2, nMinor := 3, indptr := [0, 2, 4], indices := [2, 1, 0, 2], data := [2, 5, 3, -1] },
+    csc := { nMajor := 3, nMinor := 2, indptr := [0, 1, 2, 4], indices := [1, 0, 1, 0], data := [3, 5, -1, 2] } }
+
+theorem exInput_tableOK : TableOK exInput.t := by
+  refine ⟨⟨by decide, by decide, ?_, ?_⟩, by decide, by decide⟩
+  · intro m h; cases h
+  · intro m h; cases h
+
+theorem exInput_layout : exInput.rowOK ∧ exInput.colOK := okb_sound exInput (by decide)
+
+example : answer exInput (.sum (some .samp)) = .nums [3, 5, 1] := by decide +kernel
+example : answer exInput (.sum (some .obs)) = .nums [7, 2] := by decide +kernel
+example : answer exInput (.min (some .obs)) = .nums [2, -1] := by decide +kernel
+example : answer exInput (.max none) = .num 5 := by decide +kernel
+example : answer exInput (.nzc (some .samp) true) = .nums [1, 1, 2] := by decide +kernel
+example : holdsQ exInput.t (redF "sub") (.reduce "sub" .obs) (answer exInput (.reduce "sub" .obs)) = true :=
+  queries_model_holds exInput (redF "sub") (.reduce "sub" .obs) exInput_tableOK exInput_layout.1 exInput_layout.2
+example : (statsM exInput.t false).counts = [("s1", 3), ("s2", 5), ("s3", 1)] := by decide +kernel
+example : (reportM exInput false true).detail = [("o2", 2), ("o1", 7)] := by decide +kernel
+example : (reportM exInput true false).detail.map (·.1) = ["s1", "s2", "s3"] := by decide +kernel
+/-- the predicate is not trivially true: a wrong-axis answer is rejected -/
+example : holdsQ exInput.t (fun a _ => a) (.sum (some .samp)) (.nums [7, 2]) = false := by decide +kernel
+example : holdsQ exInput.t (fun a _ => a) (.sum (some .samp)) (.nums [7, 2, 0]) = false := by decide +kernel
+example : holdsQ exInput.t (fun a _ => a) (.max (some .obs)) (.nums [2, -1]) = false := by decide +kernel
+
+
 end Biom.C19
